@@ -82,6 +82,17 @@ where
     returns `None`.
     */
     fn current(&self) -> Option<(&Self::Key, &Vec<u8>)>;
+
+    /**
+    Return the error that cut the iteration short, if there was one.
+
+    `next` and `prev` cannot return an error. An iterator that had to stop early because of one
+    (e.g. a table or a block that could not be read) reports it here, so callers should check the
+    status once the iterator has become invalid.
+    */
+    fn status(&self) -> Option<Self::Error> {
+        None
+    }
 }
 
 /**
@@ -181,6 +192,10 @@ impl RainDbIterator for CachingIterator {
 
     fn current(&self) -> Option<(&Self::Key, &Vec<u8>)> {
         self.cached_entry.as_ref().map(|entry| (&entry.0, &entry.1))
+    }
+
+    fn status(&self) -> Option<Self::Error> {
+        self.iterator.status()
     }
 }
 
@@ -586,5 +601,9 @@ impl RainDbIterator for DatabaseIterator {
                 ));
             }
         }
+    }
+
+    fn status(&self) -> Option<Self::Error> {
+        self.inner_iter.status()
     }
 }
